@@ -1,2 +1,193 @@
-/-! Line-protocol driver stub (to be filled in): reads stdin, echoes nothing. -/
-def main : IO Unit := pure ()
+import SMV.Model.Expr
+import SMV.Model.Lexer
+/-!
+# Line-protocol driver for the guard-expression model (C08), exe `drv_expr`
+
+```
+scn guard <name>
+text <hex>                      -- a guard text: answer `prep …` (fast path / rewritten text), as-is and fixed
+prov <name id> <slot,slot,…|->  -- providers of a name, in provider order
+entry <c|u> X                   -- cond / unless entry whose text CPython cannot parse
+entry <c|u> P <tree>            -- … parsed; tree in prefix form: n<id> | k<val> | ! e | & a b | | a b | c<k> e op e … op e
+rho <slot>=<val> …              -- one event: the current values of the provider slots
+end
+```
+values: `N` `T` `F` `i<int>` `f<twice>` `s<hex>` `l<len>` `o<id>:<0|1>`.
+
+Output per scenario: `prep` lines, `construct ok|InvalidDefinition`, and per `rho` line
+`send <enabled|notenabled|raised|dead> lib=<slot[*],…> py=<slot,…> spec=<…>` where `lib` are the reads of the
+library model (`*` = re-read inside a chained comparison), `py`/`spec` the reads and verdict of the
+specification side (`allPy` over the declared entries in the provider-conjunction environment,
+reads expanded to provider slots — the right-hand side of theorem `C08_end_to_end`).
+-/
+open SMV.GExpr
+
+namespace DrvE
+
+def splitWs (s : String) : List String := (s.splitOn " ").filter (· ≠ "")
+
+def hexVal (c : Char) : Nat :=
+  if c.isDigit then c.toNat - '0'.toNat
+  else if 'a' ≤ c ∧ c ≤ 'f' then c.toNat - 'a'.toNat + 10
+  else 0
+
+def unhex : List Char → List Char
+  | a :: b :: rest => Char.ofNat (hexVal a * 16 + hexVal b) :: unhex rest
+  | _ => []
+
+def hexDigit (n : Nat) : Char :=
+  if n < 10 then Char.ofNat ('0'.toNat + n) else Char.ofNat ('a'.toNat + n - 10)
+
+def hex (cs : List Char) : String :=
+  String.ofList (cs.flatMap fun c => [hexDigit (c.toNat / 16 % 16), hexDigit (c.toNat % 16)])
+
+def intOf (s : String) : Int :=
+  if s.startsWith "-" then - (Int.ofNat ((s.drop 1).toNat?.getD 0)) else Int.ofNat (s.toNat?.getD 0)
+
+def valOf (t : String) : V :=
+  let body := (t.drop 1).toString
+  match t.front with
+  | 'N' => .none
+  | 'T' => .bool true
+  | 'F' => .bool false
+  | 'i' => .int (intOf body)
+  | 'f' => .flt (intOf body)
+  | 's' => .str (String.ofList (unhex body.toList))
+  | 'l' => .list (body.toNat?.getD 0)
+  | 'o' => match body.splitOn ":" with
+    | [a, b] => .obj (a.toNat?.getD 0) (b == "1")
+    | _ => .none
+  | _ => .none
+
+def cmpOf : String → Cmp
+  | "eq" => .eq | "ne" => .ne | "lt" => .lt | "le" => .le | "gt" => .gt | _ => .ge
+
+mutual
+partial def parseE : List String → Option (E × List String)
+  | [] => none
+  | t :: rest =>
+    match t.front with
+    | 'n' => some (.name ((t.drop 1).toString.toNat?.getD 0), rest)
+    | 'k' => some (.const (valOf (t.drop 1).toString), rest)
+    | '!' => (parseE rest).map fun (e, r) => (.not e, r)
+    | '&' => do
+      let (a, r1) ← parseE rest
+      let (b, r2) ← parseE r1
+      pure (.and a b, r2)
+    | '|' => do
+      let (a, r1) ← parseE rest
+      let (b, r2) ← parseE r1
+      pure (.or a b, r2)
+    | 'c' => do
+      let k := (t.drop 1).toString.toNat?.getD 1
+      let (f, r1) ← parseE rest
+      let (c, r2) ← parseChain k r1
+      pure (.cmp f c, r2)
+    | _ => none
+partial def parseChain (k : Nat) : List String → Option (Chain × List String)
+  | op :: rest => do
+    let (e, r1) ← parseE rest
+    if k ≤ 1 then pure (.last (cmpOf op) e, r1)
+    else
+      let (c, r2) ← parseChain (k - 1) r1
+      pure (.more (cmpOf op) e c, r2)
+  | [] => none
+end
+
+structure Scn where
+  name : String := ""
+  provs : List (Nat × List Nat) := []
+  entries : List (Src × Bool) := []      -- reversed while reading
+  out : Array String := #[]
+  constructed : Option Verdict := none
+deriving Inhabited
+
+def Scn.prov (s : Scn) : Nat → List Nat := fun n =>
+  match s.provs.find? (·.1 == n) with
+  | some (_, l) => l
+  | none => []
+
+def natList (s : String) : List Nat :=
+  if s == "-" || s == "" then [] else (s.splitOn ",").filterMap String.toNat?
+
+def prepS : Prep → String
+  | .syntaxError => "syntaxError"
+  | .name s => "name " ++ hex s
+  | .parse s => "parse " ++ hex s
+
+def readsLib (l : List (Nat × Bool)) : String :=
+  ",".intercalate (l.map fun (n, re) => toString n ++ (if re then "*" else ""))
+
+def readsPy (l : List Nat) : String := ",".intercalate (l.map toString)
+
+def verdictS : Option Bool → String
+  | some true => "enabled"
+  | some false => "notenabled"
+  | none => "raised"
+
+def Scn.ensureConstructed (s : Scn) : Scn :=
+  match s.constructed with
+  | some _ => s
+  | none =>
+    let v := construct s.prov s.entries.reverse
+    let line := match v with
+      | .ok _ => "construct ok"
+      | .invalidDefinition => "construct InvalidDefinition"
+    { s with constructed := some v, out := s.out.push line }
+
+def envOfLine (toks : List String) : Env :=
+  let tbl : List (Nat × V) := toks.filterMap fun t =>
+    match t.splitOn "=" with
+    | [a, b] => some (a.toNat?.getD 0, valOf b)
+    | _ => none
+  fun n => match tbl.find? (·.1 == n) with
+    | some (_, v) => v
+    | none => .none
+
+def Scn.step (s : Scn) (toks : List String) : Scn :=
+  match toks with
+  | "text" :: rest =>
+    let cs := unhex ((rest.headD "").toList)
+    { s with out := s.out.push ("prep " ++ prepS (prepare true cs) ++ " asis " ++ prepS (prepare false cs)) }
+  | ["prov", n, l] => { s with provs := (n.toNat?.getD 0, natList l) :: s.provs }
+  | "entry" :: g :: "X" :: _ => { s with entries := (.unparsable, g == "c") :: s.entries }
+  | "entry" :: g :: "P" :: tree =>
+    match parseE tree with
+    | some (e, _) => { s with entries := (.parsed e, g == "c") :: s.entries }
+    | none => { s with out := s.out.push "error bad-tree" }
+  | "rho" :: rest =>
+    let s := s.ensureConstructed
+    match s.constructed with
+    | some (.ok gs) =>
+      let ρ := envOfLine rest
+      let r := allLib pySem ρ gs
+      let src := sourceGuards s.entries.reverse
+      let ρ' := envOf s.prov ρ
+      let p := allPy pySem ρ' src
+      let pyReads := p.reads.flatMap fun n => provReads ρ (s.prov n)
+      let line := s!"send {verdictS r.val} lib={readsLib r.reads} py={readsPy pyReads} spec={verdictS p.val}"
+      { s with out := s.out.push line }
+    | _ => { s with out := s.out.push "send dead" }
+  | _ => s
+
+partial def loop (h : IO.FS.Stream) (out : IO.FS.Stream) (cur : Option Scn) : IO Unit := do
+  let line ← h.getLine
+  if line.isEmpty then return
+  let toks := splitWs (line.trimAsciiEnd).toString
+  match toks, cur with
+  | "scn" :: _ :: name :: _, _ => loop h out (some { name := name })
+  | ["end"], some s =>
+    let s := s.ensureConstructed
+    out.putStrLn ("scn " ++ s.name)
+    for l in s.out do out.putStrLn l
+    out.putStrLn "end"
+    loop h out none
+  | _, some s => loop h out (some (s.step toks))
+  | _, none => loop h out none
+
+end DrvE
+
+def main : IO Unit := do
+  let stdin ← IO.getStdin
+  let stdout ← IO.getStdout
+  DrvE.loop stdin stdout none
